@@ -59,78 +59,248 @@ theorem mem_keys_of_lookup {α : Type} (d : AList α) (k : String) (v : α) (h :
   rw [lookup_eq_none_of_not_mem d k hc] at h
   cases h
 
-/-! ### the inclusion chain terminates: the cycle check bounds its depth by the number of macros -/
+/-! ### macro expansion terminates for every macro table (both cycle checks) -/
 
-theorem includeMacro_chain_no_fuel (ms : AList RMacro) (D : Nat)
-    (hbody : ∀ name m, ms.lookup name = some m →
-      (∃ own, mapE (pField D ms) m.fields = .ok own) ∧ (∃ ofr, mapE (fun s => pStmt D ms s) m.friends = .ok ofr)) :
-    ∀ (k : Nat) (ps : List String) (n : String) (f : Nat), ps.Nodup → (∀ p ∈ ps, p ∈ keys ms) →
-      (keys ms).length ≤ ps.length + k → D + k + 1 ≤ f → includeMacro f ms ps n ≠ .error .fuel := by
-  intro k
-  induction k with
+theorem mem_of_lookup {α : Type} (d : AList α) (k : String) (v : α) (h : d.lookup k = some v) : (k, v) ∈ d := by
+  induction d with
+  | nil => simp at h
+  | cons p r ih =>
+    obtain ⟨k0, v0⟩ := p
+    by_cases e : k = k0
+    · subst e
+      rw [lookup_cons_self] at h
+      simp only [Option.some.injEq] at h
+      subst h
+      simp
+    · rw [lookup_cons_ne _ _ _ _ e] at h
+      exact List.mem_cons_of_mem _ (ih h)
+
+theorem mapE_ne_fuel {β γ : Type} (g : β → Except Err γ) (l : List β)
+    (h : ∀ x ∈ l, g x ≠ .error .fuel) : mapE g l ≠ .error .fuel := by
+  intro he
+  obtain ⟨x, hx, hg⟩ := mapE_error g l _ he
+  exact h x hx hg
+
+/-- a duplicate-free stack of known names is no longer than the table -/
+theorem stack_length_le {α : Type} (d : AList α) (st : List String) (hnd : st.Nodup)
+    (hsub : ∀ p ∈ st, p ∈ keys d) : st.length ≤ (keys d).length :=
+  (List.subperm_of_subset hnd (fun x hx => hsub x hx)).length_le
+
+theorem stack_push_inv {α : Type} (d : AList α) (st : List String) (n : String) (hnd : st.Nodup)
+    (hsub : ∀ p ∈ st, p ∈ keys d) (hn : n ∉ st) (hmem : n ∈ keys d) :
+    (st ++ [n]).Nodup ∧ (∀ p ∈ st ++ [n], p ∈ keys d) := by
+  refine ⟨?_, ?_⟩
+  · rw [List.nodup_append]
+    refine ⟨hnd, by simp, ?_⟩
+    intro a ha b hb
+    simp only [List.mem_singleton] at hb
+    subst hb
+    exact fun e => hn (e ▸ ha)
+  · intro p hp
+    rcases List.mem_append.mp hp with hp | hp
+    · exact hsub p hp
+    · simp only [List.mem_singleton] at hp; subst hp; exact hmem
+
+/-! syntactic nesting depth of the raw syntax -/
+mutual
+  def dDef : RDef → Nat
+    | .val _ => 0
+    | .nested t => dTemplate t + 1
+  def dTemplate : RTemplate → Nat
+    | .mk _ _ _ fields friends => max (dFields fields) (dStmts friends) + 1
+  def dFields : List (String × RDef) → Nat
+    | [] => 0
+    | p :: r => max (dPair p) (dFields r)
+  def dPair : String × RDef → Nat
+    | (_, d) => dDef d
+  def dStmt : RStmt → Nat
+    | .var _ d => dDef d + 1
+    | .obj t => dTemplate t + 1
+  def dStmts : List RStmt → Nat
+    | [] => 0
+    | s :: r => max (dStmt s) (dStmts r)
+end
+
+theorem dDef_le_dFields (fs : List (String × RDef)) (p : String × RDef) (h : p ∈ fs) : dDef p.2 ≤ dFields fs := by
+  induction fs with
+  | nil => simp at h
+  | cons q r ih =>
+    simp only [dFields]
+    rcases List.mem_cons.mp h with h | h
+    · subst h
+      obtain ⟨n, d⟩ := p
+      simp only [dPair]
+      omega
+    · have := ih h
+      omega
+
+theorem dStmt_le_dStmts (ss : List RStmt) (s : RStmt) (h : s ∈ ss) : dStmt s ≤ dStmts ss := by
+  induction ss with
+  | nil => simp at h
+  | cons q r ih =>
+    simp only [dStmts]
+    rcases List.mem_cons.mp h with h | h
+    · subst h; omega
+    · have := ih h
+      omega
+
+theorem dTemplate_fields (t : RTemplate) : dFields t.fields + 1 ≤ dTemplate t ∧ dStmts t.friends + 1 ≤ dTemplate t := by
+  cases t with
+  | mk a b c fields friends =>
+    simp only [dTemplate, RTemplate.fields, RTemplate.friends]
+    omega
+
+/-- the deepest macro body -/
+def maxBody : AList RMacro → Nat
+  | [] => 0
+  | p :: r => max (max (dFields p.2.fields) (dStmts p.2.friends)) (maxBody r)
+
+theorem body_le_maxBody (ms : AList RMacro) (n : String) (m : RMacro) (h : (n, m) ∈ ms) :
+    dFields m.fields ≤ maxBody ms ∧ dStmts m.friends ≤ maxBody ms := by
+  induction ms with
+  | nil => simp at h
+  | cons q r ih =>
+    simp only [maxBody]
+    rcases List.mem_cons.mp h with h | h
+    · subst h
+      simp only
+      omega
+    · have := ih h
+      omega
+
+theorem cycleErr_some_of_mem (exp ps : List String) (n : String) (h : n ∈ exp) : cycleErr exp ps n ≠ none := by
+  unfold cycleErr
+  have he : exp.contains n = true := by simpa using h
+  rw [he]
+  cases ps.contains n <;> simp
+
+theorem cycleErr_ne_fuel (exp ps : List String) (n : String) (e : Err) (h : cycleErr exp ps n = some e) :
+    e ≠ .fuel := by
+  unfold cycleErr at h
+  cases hp : ps.contains n <;> cases he : exp.contains n <;> rw [hp, he] at h <;> simp at h <;> subst h <;> simp
+
+/-- **both cycle checks bound the expansion**: with `c = maxBody ms + 2` and a duplicate-free expansion
+    stack of known macros, fuel `#macros·c + depth + 2` (minus what the stack already accounts for)
+    always suffices -/
+theorem expansion_no_fuel (ms : AList RMacro) (f : Nat) :
+    ∀ exp : List String, exp.Nodup → (∀ p ∈ exp, p ∈ keys ms) →
+      (∀ d, (keys ms).length * (maxBody ms + 2) + dDef d + 2 ≤ f + exp.length * (maxBody ms + 2) →
+        pDef f ms exp d ≠ .error .fuel) ∧
+      (∀ s, (keys ms).length * (maxBody ms + 2) + dStmt s + 2 ≤ f + exp.length * (maxBody ms + 2) →
+        pStmt f ms exp s ≠ .error .fuel) ∧
+      (∀ t, (keys ms).length * (maxBody ms + 2) + dTemplate t + 2 ≤ f + exp.length * (maxBody ms + 2) →
+        pTemplate f ms exp t ≠ .error .fuel) ∧
+      (∀ ps n, (keys ms).length * (maxBody ms + 2) + 1 ≤ f + exp.length * (maxBody ms + 2) →
+        includeMacro f ms exp ps n ≠ .error .fuel) := by
+  induction f with
   | zero =>
-    intro ps n f hnd hsub hlen hf
-    obtain ⟨f', rfl⟩ : ∃ f', f = f' + 1 := ⟨f - 1, by omega⟩
-    rw [includeMacro_succ]
-    cases hl : ms.lookup n with
-    | none => simp
-    | some m =>
-      simp only
-      by_cases hc : ps.contains n = true
-      · rw [if_pos hc]; simp
-      · exfalso
-        have hn : n ∉ ps := by simpa using hc
-        have hmem := mem_keys_of_lookup ms n m hl
-        have hnd' : (n :: ps).Nodup := List.nodup_cons.mpr ⟨hn, hnd⟩
-        have hsub' : (n :: ps) ⊆ keys ms := by
-          intro x hx
-          rcases List.mem_cons.mp hx with rfl | hx
-          · exact hmem
-          · exact hsub x hx
-        have := (List.subperm_of_subset hnd' hsub').length_le
-        simp at this
-        omega
-  | succ k ih =>
-    intro ps n f hnd hsub hlen hf
-    obtain ⟨f', rfl⟩ : ∃ f', f = f' + 1 := ⟨f - 1, by omega⟩
-    rw [includeMacro_succ]
-    cases hl : ms.lookup n with
-    | none => simp
-    | some m =>
-      simp only
-      by_cases hc : ps.contains n = true
-      · rw [if_pos hc]; simp
-      · rw [if_neg hc]
-        have hn : n ∉ ps := by simpa using hc
-        have hmem := mem_keys_of_lookup ms n m hl
-        have hnd' : (ps ++ [n]).Nodup := by
-          rw [List.nodup_append]
-          refine ⟨hnd, by simp, ?_⟩
-          intro a ha b hb
-          simp only [List.mem_singleton] at hb
-          subst hb
-          exact fun e => hn (e ▸ ha)
-        have hsub' : ∀ p ∈ ps ++ [n], p ∈ keys ms := by
-          intro p hp
-          rcases List.mem_append.mp hp with hp | hp
-          · exact hsub p hp
-          · simp only [List.mem_singleton] at hp; subst hp; exact hmem
-        have hrec : ∀ x, includeMacro f' ms (ps ++ [n]) x ≠ .error .fuel :=
-          fun x => ih (ps ++ [n]) x f' hnd' hsub' (by simp; omega) (by omega)
-        obtain ⟨⟨own, hown⟩, ⟨ofr, hofr⟩⟩ := hbody n m hl
-        have hown' : mapE (pField f' ms) m.fields = .ok own :=
-          mapE_mono _ _ _ own (fun x _ r hx => pField_mono ms D f' (by omega) x r hx) hown
-        have hofr' : mapE (fun s => pStmt f' ms s) m.friends = .ok ofr :=
-          mapE_mono _ _ _ ofr (fun x _ r hx => pStmt_mono ms D f' (by omega) x r hx) hofr
-        cases h1 : mapE (fun x => includeMacro f' ms (ps ++ [n]) x) m.incl with
-        | error e =>
-          obtain ⟨x, _, hx⟩ := mapE_error _ _ _ h1
+    intro exp hnd hsub
+    have hle := Nat.mul_le_mul_right (maxBody ms + 2) (stack_length_le ms exp hnd hsub)
+    refine ⟨?_, ?_, ?_, ?_⟩ <;> intros <;> omega
+  | succ f ih =>
+    intro exp hnd hsub
+    have hle := Nat.mul_le_mul_right (maxBody ms + 2) (stack_length_le ms exp hnd hsub)
+    obtain ⟨ihD, ihS, ihT, ihM⟩ := ih exp hnd hsub
+    have hD : ∀ d, (keys ms).length * (maxBody ms + 2) + dDef d + 2 ≤ f + 1 + exp.length * (maxBody ms + 2) →
+        pDef (f + 1) ms exp d ≠ .error .fuel := by
+      intro d hf
+      cases d with
+      | val p => rw [pDef_val]; simp
+      | nested t =>
+        rw [pDef_nested]
+        simp only [dDef] at hf
+        have := ihT t (by omega)
+        cases h : pTemplate f ms exp t with
+        | error e => intro he; simp only [Except.error.injEq] at he; subst he; exact this h
+        | ok r => simp
+    have hS : ∀ s, (keys ms).length * (maxBody ms + 2) + dStmt s + 2 ≤ f + 1 + exp.length * (maxBody ms + 2) →
+        pStmt (f + 1) ms exp s ≠ .error .fuel := by
+      intro s hf
+      cases s with
+      | var n d =>
+        rw [pStmt_var]
+        simp only [dStmt] at hf
+        have := ihD d (by omega)
+        cases h : pDef f ms exp d with
+        | error e => intro he; simp only [Except.error.injEq] at he; subst he; exact this h
+        | ok r => simp
+      | obj t =>
+        rw [pStmt_obj]
+        simp only [dStmt] at hf
+        have := ihT t (by omega)
+        cases h : pTemplate f ms exp t with
+        | error e => intro he; simp only [Except.error.injEq] at he; subst he; exact this h
+        | ok r => simp
+    have hFieldOf : ∀ (e : List String) (d0 : Nat),
+        (∀ d, dDef d ≤ d0 → pDef f ms e d ≠ .error .fuel) →
+        ∀ fs : List (String × RDef), dFields fs ≤ d0 → mapE (pField f ms e) fs ≠ .error .fuel := by
+      intro e d0 hd fs hfs
+      apply mapE_ne_fuel
+      intro p hp
+      unfold pField
+      have := hd p.2 (Nat.le_trans (dDef_le_dFields fs p hp) hfs)
+      cases h : pDef f ms e p.2 with
+      | error x => intro he; simp only [Except.error.injEq] at he; subst he; exact this h
+      | ok r => simp
+    refine ⟨hD, hS, ?_, ?_⟩
+    · intro t hf
+      rw [pTemplate_succ]
+      obtain ⟨b1, b2⟩ := dTemplate_fields t
+      have h1 : mapE (fun n => includeMacro f ms exp [] n) t.incl ≠ .error .fuel :=
+        mapE_ne_fuel _ _ (fun x _ => ihM [] x (by omega))
+      have h2 : mapE (pField f ms exp) t.fields ≠ .error .fuel :=
+        hFieldOf exp (dFields t.fields) (fun d hd => ihD d (by omega)) t.fields (Nat.le_refl _)
+      have h3 : mapE (fun s => pStmt f ms exp s) t.friends ≠ .error .fuel :=
+        mapE_ne_fuel _ _ (fun s hs => ihS s (by have := dStmt_le_dStmts t.friends s hs; omega))
+      cases k1 : mapE (fun n => includeMacro f ms exp [] n) t.incl with
+      | error e => intro he; simp only [Except.error.injEq] at he; subst he; exact h1 k1
+      | ok incs =>
+        simp only
+        cases k2 : mapE (pField f ms exp) t.fields with
+        | error e => intro he; simp only [Except.error.injEq] at he; subst he; exact h2 k2
+        | ok own =>
+          simp only
+          cases k3 : mapE (fun s => pStmt f ms exp s) t.friends with
+          | error e => intro he; simp only [Except.error.injEq] at he; subst he; exact h3 k3
+          | ok ofr => simp
+    · intro ps n hf
+      rw [includeMacro_succ]
+      cases hl : ms.lookup n with
+      | none => simp
+      | some m =>
+        simp only
+        cases hc : cycleErr exp ps n with
+        | some e =>
           simp only
           intro he
           simp only [Except.error.injEq] at he
-          subst he
-          exact hrec x hx
-        | ok incs => simp [hown', hofr']
+          exact cycleErr_ne_fuel exp ps n e hc he
+        | none =>
+          simp only
+          have hn : n ∉ exp := fun hx => cycleErr_some_of_mem exp ps n hx hc
+          have hmem := mem_keys_of_lookup ms n m hl
+          obtain ⟨hnd', hsub'⟩ := stack_push_inv ms exp n hnd hsub hn hmem
+          have hlen : (exp ++ [n]).length * (maxBody ms + 2) = exp.length * (maxBody ms + 2) + (maxBody ms + 2) := by
+            simp [List.length_append, Nat.add_mul]
+          obtain ⟨jD, jS, _, jM⟩ := ih (exp ++ [n]) hnd' hsub'
+          obtain ⟨w1, w2⟩ := body_le_maxBody ms n m (mem_of_lookup ms n m hl)
+          have h1 : mapE (fun x => includeMacro f ms (exp ++ [n]) (ps ++ [n]) x) m.incl ≠ .error .fuel :=
+            mapE_ne_fuel _ _ (fun x _ => jM (ps ++ [n]) x (by omega))
+          have h2 : mapE (pField f ms (exp ++ [n])) m.fields ≠ .error .fuel :=
+            hFieldOf (exp ++ [n]) (maxBody ms) (fun d hd => jD d (by omega)) m.fields w1
+          have h3 : mapE (fun s => pStmt f ms (exp ++ [n]) s) m.friends ≠ .error .fuel :=
+            mapE_ne_fuel _ _ (fun s hs => jS s (by have := dStmt_le_dStmts m.friends s hs; omega))
+          cases k1 : mapE (fun x => includeMacro f ms (exp ++ [n]) (ps ++ [n]) x) m.incl with
+          | error e => intro he; simp only [Except.error.injEq] at he; subst he; exact h1 k1
+          | ok incs =>
+            simp only
+            cases k2 : mapE (pField f ms (exp ++ [n])) m.fields with
+            | error e => intro he; simp only [Except.error.injEq] at he; subst he; exact h2 k2
+            | ok own =>
+              simp only
+              cases k3 : mapE (fun s => pStmt f ms (exp ++ [n]) s) m.friends with
+              | error e => intro he; simp only [Except.error.injEq] at he; subst he; exact h3 k3
+              | ok ofr => simp
 
 /-! ### file flattening -/
 
@@ -144,77 +314,174 @@ def flatOf {β : Type} (sel : List Item → List β) : Nat → AList (List Item)
     | none => []
     | some items => (includesOf items).flatMap (fun n => flatOf sel f files n) ++ sel items
 
-/-- the step function of the fold in `parseFile` -/
-def incStep (f : Nat) (files : AList (List Item)) (acc : List RStmt × PCtx) (n : String) :
+/-- the step function of the fold in `parseFile` (= `parse_included_file`): cycle check on the stack
+    of open files, push, read -/
+def incStep (f : Nat) (files : AList (List Item)) (stack : List String) (acc : List RStmt × PCtx) (n : String) :
     Except Err (List RStmt × PCtx) :=
-  match parseFile f files acc.2 n with
+  if stack.contains n then .error (.includeCycle n) else
+  match parseFile f files (stack ++ [n]) acc.2 n with
   | .error e => .error e
   | .ok r => .ok (acc.1 ++ r.1, r.2)
 
-theorem parseFile_zero (files : AList (List Item)) (ctx : PCtx) (n : String) :
-    parseFile 0 files ctx n = .error .fuel := rfl
+theorem parseFile_zero (files : AList (List Item)) (stack : List String) (ctx : PCtx) (n : String) :
+    parseFile 0 files stack ctx n = .error .fuel := rfl
 
-theorem parseFile_succ (f : Nat) (files : AList (List Item)) (ctx : PCtx) (name : String) :
-    parseFile (f + 1) files ctx name =
+theorem parseFile_succ (f : Nat) (files : AList (List Item)) (stack : List String) (ctx : PCtx) (name : String) :
+    parseFile (f + 1) files stack ctx name =
       match files.lookup name with
       | none => .error (.noFile name)
       | some items =>
-        match foldE (incStep f files) ([], ctx) (includesOf items) with
+        match foldE (incStep f files stack) ([], ctx) (includesOf items) with
         | .error e => .error e
         | .ok (incStmts, c1) =>
           match parseVersion (versionsOf items) with
           | .error e => .error e
-          | .ok v =>
-            .ok (incStmts ++ stmtsOf items,
-                 { macros := dictUpdate c1.macros (macrosOf items),
-                   options := c1.options ++ optionsOf items,
-                   version := v }) := by
+          | .ok own =>
+            match mergeVersion c1.version own with
+            | .error e => .error e
+            | .ok v =>
+              .ok (incStmts ++ stmtsOf items,
+                   { macros := dictUpdate c1.macros (macrosOf items),
+                     options := c1.options ++ optionsOf items,
+                     version := v }) := by
   rw [parseFile]; rfl
 
+/-! #### the version rule -/
+
+/-- `res` is what the version becomes when the declarations `vs` are met starting from `inh`: every
+    declared version is the result, an inherited version is kept, nothing declared ⇒ unchanged -/
+def VersionOK (inh : Option Int) (vs : List Int) (res : Option Int) : Prop :=
+  (∀ v ∈ vs, res = some v) ∧ (∀ w, inh = some w → res = some w) ∧ (vs = [] → res = inh)
+
+theorem VersionOK.nil (a : Option Int) : VersionOK a [] a :=
+  ⟨by simp, fun _ h => h, fun _ => rfl⟩
+
+theorem VersionOK.trans {a b c : Option Int} {v1 v2 : List Int} (h1 : VersionOK a v1 b) (h2 : VersionOK b v2 c) :
+    VersionOK a (v1 ++ v2) c := by
+  refine ⟨?_, ?_, ?_⟩
+  · intro v hv
+    rcases List.mem_append.mp hv with hv | hv
+    · exact h2.2.1 v (h1.1 v hv)
+    · exact h2.1 v hv
+  · intro w hw
+    exact h2.2.1 w (h1.2.1 w hw)
+  · intro he
+    have e1 : v1 = [] := (List.append_eq_nil_iff.mp he).1
+    have e2 : v2 = [] := (List.append_eq_nil_iff.mp he).2
+    rw [h2.2.2 e2, h1.2.2 e1]
+
+theorem parseVersion_ok (vs : List Int) (own : Option Int) (h : parseVersion vs = .ok own) :
+    (own = none → vs = []) ∧ (∀ b, own = some b → ∀ v ∈ vs, v = b) := by
+  unfold parseVersion at h
+  cases vs with
+  | nil =>
+    simp only [Except.ok.injEq] at h
+    subst h
+    simp
+  | cons b r =>
+    simp only at h
+    split at h
+    · cases h
+    · split at h
+      · cases h
+      · rename_i hany _
+        simp only [Except.ok.injEq] at h
+        subst h
+        refine ⟨by simp, ?_⟩
+        intro b' hb v hv
+        simp only [Option.some.injEq] at hb
+        subst hb
+        have hall : ∀ x ∈ b :: r, ¬ (x != b) = true := by
+          intro x hx hne
+          exact hany (List.any_eq_true.mpr ⟨x, hx, hne⟩)
+        have := hall v hv
+        simpa using this
+
+theorem own_version_ok (inh : Option Int) (vs : List Int) (own v : Option Int)
+    (h1 : parseVersion vs = .ok own) (h2 : mergeVersion inh own = .ok v) : VersionOK inh vs v := by
+  obtain ⟨p1, p2⟩ := parseVersion_ok vs own h1
+  unfold mergeVersion at h2
+  cases own with
+  | none =>
+    simp only [Except.ok.injEq] at h2
+    subst h2
+    rw [p1 rfl]
+    exact VersionOK.nil inh
+  | some b =>
+    simp only at h2
+    cases inh with
+    | none =>
+      simp only [Except.ok.injEq] at h2
+      subst h2
+      refine ⟨fun v hv => (by rw [p2 b rfl v hv]), fun w hw => (by cases hw), ?_⟩
+      intro he
+      rw [he] at h1
+      first | done | simp [parseVersion] at h1
+    | some w =>
+      simp only at h2
+      by_cases e : w = b
+      · subst e
+        simp only [beq_self_eq_true, if_true, Except.ok.injEq] at h2
+        subst h2
+        refine ⟨fun v hv => (by rw [p2 w rfl v hv]), fun w' hw => hw, ?_⟩
+        intro he
+        rw [he] at h1
+        first | done | simp [parseVersion] at h1
+      · have hb : (w == b) = false := by simpa using e
+        simp [hb] at h2
+
 /-- the fold over the include lines, given the specification of each included file -/
-theorem foldE_incStep_spec (f : Nat) (files : AList (List Item))
-    (ih : ∀ ctx n r, parseFile f files ctx n = .ok r →
+theorem foldE_incStep_spec (f : Nat) (files : AList (List Item)) (stack : List String)
+    (ih : ∀ stack ctx n r, parseFile f files stack ctx n = .ok r →
       r.1 = flatOf stmtsOf f files n ∧
       r.2.macros = dictUpdate ctx.macros (flatOf macrosOf f files n) ∧
-      r.2.options = ctx.options ++ flatOf optionsOf f files n)
-    (incs : List String) (acc r : List RStmt × PCtx) (h : foldE (incStep f files) acc incs = .ok r) :
+      r.2.options = ctx.options ++ flatOf optionsOf f files n ∧
+      VersionOK ctx.version (flatOf versionsOf f files n) r.2.version)
+    (incs : List String) (acc r : List RStmt × PCtx) (h : foldE (incStep f files stack) acc incs = .ok r) :
     r.1 = acc.1 ++ incs.flatMap (fun n => flatOf stmtsOf f files n) ∧
     r.2.macros = dictUpdate acc.2.macros (incs.flatMap (fun n => flatOf macrosOf f files n)) ∧
-    r.2.options = acc.2.options ++ incs.flatMap (fun n => flatOf optionsOf f files n) := by
+    r.2.options = acc.2.options ++ incs.flatMap (fun n => flatOf optionsOf f files n) ∧
+    VersionOK acc.2.version (incs.flatMap (fun n => flatOf versionsOf f files n)) r.2.version := by
   induction incs generalizing acc with
   | nil =>
     simp only [foldE, Except.ok.injEq] at h
     subst h
-    simp [dictUpdate_nil]
+    exact ⟨by simp, by simp [dictUpdate_nil], by simp, VersionOK.nil _⟩
   | cons n rest ihl =>
     simp only [foldE] at h
-    cases hs : incStep f files acc n with
+    cases hs : incStep f files stack acc n with
     | error e => rw [hs] at h; cases h
     | ok acc1 =>
       rw [hs] at h
-      obtain ⟨h1, h2, h3⟩ := ihl acc1 h
+      obtain ⟨h1, h2, h3, h4⟩ := ihl acc1 h
       unfold incStep at hs
-      cases hp : parseFile f files acc.2 n with
-      | error e => rw [hp] at hs; cases hs
-      | ok r1 =>
-        rw [hp] at hs
-        simp only [Except.ok.injEq] at hs
-        subst hs
-        obtain ⟨g1, g2, g3⟩ := ih acc.2 n r1 hp
-        refine ⟨?_, ?_, ?_⟩
-        · rw [h1]; simp [g1, List.append_assoc]
-        · rw [h2]; simp only [g2, List.flatMap_cons, dictUpdate_append]
-        · rw [h3]; simp [g3, List.append_assoc]
+      by_cases hc : stack.contains n = true
+      · rw [if_pos hc] at hs; cases hs
+      · rw [if_neg hc] at hs
+        cases hp : parseFile f files (stack ++ [n]) acc.2 n with
+        | error e => rw [hp] at hs; cases hs
+        | ok r1 =>
+          rw [hp] at hs
+          simp only [Except.ok.injEq] at hs
+          subst hs
+          obtain ⟨g1, g2, g3, g4⟩ := ih _ acc.2 n r1 hp
+          refine ⟨?_, ?_, ?_, ?_⟩
+          · rw [h1]; simp [g1, List.append_assoc]
+          · rw [h2]; simp only [g2, List.flatMap_cons, dictUpdate_append]
+          · rw [h3]; simp [g3, List.append_assoc]
+          · simp only [List.flatMap_cons]
+            exact VersionOK.trans g4 h4
 
 theorem parseFile_spec (f : Nat) (files : AList (List Item)) :
-    ∀ ctx n r, parseFile f files ctx n = .ok r →
+    ∀ stack ctx n r, parseFile f files stack ctx n = .ok r →
       r.1 = flatOf stmtsOf f files n ∧
       r.2.macros = dictUpdate ctx.macros (flatOf macrosOf f files n) ∧
-      r.2.options = ctx.options ++ flatOf optionsOf f files n := by
+      r.2.options = ctx.options ++ flatOf optionsOf f files n ∧
+      VersionOK ctx.version (flatOf versionsOf f files n) r.2.version := by
   induction f with
-  | zero => intro ctx n r h; rw [parseFile_zero] at h; cases h
+  | zero => intro stack ctx n r h; rw [parseFile_zero] at h; cases h
   | succ f ih =>
-    intro ctx n r h
+    intro stack ctx n r h
     rw [parseFile_succ] at h
     simp only [flatOf]
     cases hl : files.lookup n with
@@ -222,23 +489,29 @@ theorem parseFile_spec (f : Nat) (files : AList (List Item)) :
     | some items =>
       rw [hl] at h
       simp only at h ⊢
-      cases hf : foldE (incStep f files) ([], ctx) (includesOf items) with
+      cases hf : foldE (incStep f files stack) ([], ctx) (includesOf items) with
       | error e => rw [hf] at h; cases h
       | ok r1 =>
         rw [hf] at h
         obtain ⟨s1, c1⟩ := r1
-        obtain ⟨g1, g2, g3⟩ := foldE_incStep_spec f files ih (includesOf items) ([], ctx) (s1, c1) hf
-        simp only at h g1 g2 g3
+        obtain ⟨g1, g2, g3, g4⟩ := foldE_incStep_spec f files stack ih (includesOf items) ([], ctx) (s1, c1) hf
+        simp only at h g1 g2 g3 g4
         cases hv : parseVersion (versionsOf items) with
         | error e => rw [hv] at h; cases h
-        | ok v =>
+        | ok own =>
           rw [hv] at h
-          simp only [Except.ok.injEq] at h
-          subst h
-          refine ⟨?_, ?_, ?_⟩
-          · simp [g1]
-          · simp only [g2, dictUpdate_append]
-          · simp [g3, List.append_assoc]
+          simp only at h
+          cases hm : mergeVersion c1.version own with
+          | error e => rw [hm] at h; cases h
+          | ok v =>
+            rw [hm] at h
+            simp only [Except.ok.injEq] at h
+            subst h
+            refine ⟨?_, ?_, ?_, ?_⟩
+            · simp [g1]
+            · simp only [g2, dictUpdate_append]
+            · simp [g3, List.append_assoc]
+            · exact VersionOK.trans g4 (own_version_ok c1.version _ own v hv hm)
 
 /-! ### where the declarations stand in a file does not matter -/
 
@@ -276,11 +549,11 @@ def SameFiles (fs gs : AList (List Item)) : Prop :=
     | _, _ => False
 
 theorem parseFile_sameFiles (fs gs : AList (List Item)) (h : SameFiles fs gs) (f : Nat) :
-    ∀ ctx n, parseFile f fs ctx n = parseFile f gs ctx n := by
+    ∀ stack ctx n, parseFile f fs stack ctx n = parseFile f gs stack ctx n := by
   induction f with
-  | zero => intro ctx n; rfl
+  | zero => intro stack ctx n; rfl
   | succ f ih =>
-    intro ctx n
+    intro stack ctx n
     rw [parseFile_succ, parseFile_succ]
     have hn := h n
     cases h1 : fs.lookup n with
@@ -294,42 +567,76 @@ theorem parseFile_sameFiles (fs gs : AList (List Item)) (h : SameFiles fs gs) (f
       | some b =>
         rw [h1, h2] at hn
         obtain ⟨e1, e2, e3, e4, e5⟩ := hn
-        have hstep : incStep f fs = incStep f gs := by
+        have hstep : incStep f fs stack = incStep f gs stack := by
           funext acc x
           unfold incStep
           rw [ih]
         simp only [e1, e2, e3, e4, e5, hstep]
 
-/-! ### termination of the flattening for acyclic inclusion -/
+/-! ### the flattening terminates for every file map (cycle check on the stack of open files) -/
 
-theorem parseFile_no_fuel (files : AList (List Item)) (rk : String → Nat)
-    (hrk : ∀ name items, files.lookup name = some items → ∀ i ∈ includesOf items, rk i < rk name) :
-    ∀ f ctx name, rk name < f → parseFile f files ctx name ≠ .error .fuel := by
-  intro f
+theorem parseVersion_ne_fuel (vs : List Int) (e : Err) (h : parseVersion vs = .error e) : e ≠ .fuel := by
+  unfold parseVersion at h
+  split at h
+  · cases h
+  · split at h
+    · cases h; simp
+    · split at h <;> cases h
+      simp
+
+theorem mergeVersion_ne_fuel (a b : Option Int) (e : Err) (h : mergeVersion a b = .error e) : e ≠ .fuel := by
+  unfold mergeVersion at h
+  cases b with
+  | none => cases h
+  | some v =>
+    cases a with
+    | none => cases h
+    | some w =>
+      simp only at h
+      split at h
+      · cases h
+      · cases h; simp
+
+theorem parseFile_no_fuel (files : AList (List Item)) (f : Nat) :
+    ∀ stack ctx name, stack.Nodup → (∀ p ∈ stack, p ∈ keys files) →
+      (keys files).length + 2 ≤ f + stack.length → parseFile f files stack ctx name ≠ .error .fuel := by
   induction f with
-  | zero => intro ctx name h; omega
+  | zero =>
+    intro stack ctx name hnd hsub hf
+    have := stack_length_le files stack hnd hsub
+    omega
   | succ f ih =>
-    intro ctx name h
+    intro stack ctx name hnd hsub hf
+    have hle := stack_length_le files stack hnd hsub
     rw [parseFile_succ]
     cases hl : files.lookup name with
     | none => simp
     | some items =>
       simp only
-      cases hf : foldE (incStep f files) ([], ctx) (includesOf items) with
+      cases hfo : foldE (incStep f files stack) ([], ctx) (includesOf items) with
       | error e =>
-        obtain ⟨s', x, hx, hg⟩ := foldE_error _ _ _ _ hf
+        obtain ⟨s', x, _, hg⟩ := foldE_error _ _ _ _ hfo
         simp only
         intro he
         simp only [Except.error.injEq] at he
         subst he
         unfold incStep at hg
-        cases hp : parseFile f files s'.2 x with
-        | error e' =>
-          rw [hp] at hg
-          simp only [Except.error.injEq] at hg
-          subst hg
-          exact ih s'.2 x (by have := hrk name items hl x hx; omega) hp
-        | ok r => rw [hp] at hg; cases hg
+        by_cases hc : stack.contains x = true
+        · rw [if_pos hc] at hg; cases hg
+        · rw [if_neg hc] at hg
+          have hx : x ∉ stack := by simpa using hc
+          cases hp : parseFile f files (stack ++ [x]) s'.2 x with
+          | ok r => rw [hp] at hg; cases hg
+          | error e' =>
+            rw [hp] at hg
+            simp only [Except.error.injEq] at hg
+            subst hg
+            by_cases hk : x ∈ keys files
+            · obtain ⟨hnd', hsub'⟩ := stack_push_inv files stack x hnd hsub hx hk
+              exact ih (stack ++ [x]) s'.2 x hnd' hsub' (by simp [List.length_append]; omega) hp
+            · obtain ⟨f', rfl⟩ : ∃ f', f = f' + 1 := ⟨f - 1, by omega⟩
+              rw [parseFile_succ, lookup_eq_none_of_not_mem files x hk] at hp
+              cases hp
       | ok r1 =>
         obtain ⟨s1, c1⟩ := r1
         simp only
@@ -338,13 +645,15 @@ theorem parseFile_no_fuel (files : AList (List Item)) (rk : String → Nat)
           simp only
           intro he
           simp only [Except.error.injEq] at he
-          subst he
-          unfold parseVersion at hv
-          split at hv
-          · cases hv
-          · split at hv
-            · cases hv
-            · split at hv <;> cases hv
-        | ok v => simp
+          exact parseVersion_ne_fuel _ e hv he
+        | ok own =>
+          simp only
+          cases hm : mergeVersion c1.version own with
+          | error e =>
+            simp only
+            intro he
+            simp only [Except.error.injEq] at he
+            exact mergeVersion_ne_fuel _ _ e hm he
+          | ok v => simp
 
 end SnowModel.ParseY
